@@ -78,6 +78,10 @@ SHAPES = [
     # a response key selected directly and again inside a later fragment, another key in between
     ("dup-in-fragment", "{ a ...F w } fragment F on Query { b a o { x } }", ["Query.a", "Query.b", "Query.w", "Obj.x"]),
     ("fragments", "{ ...F ... on Query { b } } fragment F on Query { a o { ...G } } fragment G on Obj { x y }", ["Query.a", "Query.b", "Obj.x", "Obj.y"]),
+    # a custom scalar whose serialisation yields null for a non-null value: nullable, non-null and list-item positions
+    ("serialize-to-null", "{ bl bv a }", ["Query.bl", "Query.a"], "scalars"),
+    ("serialize-to-null-nonnull", "{ a bn }", ["Query.a", "Query.bn"], "scalars"),
+    ("serialize-to-null-item", "{ bls bv }", ["Query.bls", "Query.bv"], "scalars"),
 ]
 STYLES = ("default", "sync", "async", "nested", "submit")
 
